@@ -78,6 +78,13 @@ func (r *Reconciler) Reconcile(ctx context.Context, request reconcile.Request) (
 		return r.updateExtendedDaemonsetSetting(ctx, instance, newStatus)
 	}
 
+	if _, err = metav1.LabelSelectorAsSelector(&instance.Spec.NodeSelector); err != nil {
+		newStatus.Error = fmt.Sprintf("invalid node selector in spec: %v", err)
+		newStatus.Status = datadoghqv1alpha1.ExtendedDaemonsetSettingStatusError
+
+		return r.updateExtendedDaemonsetSetting(ctx, instance, newStatus)
+	}
+
 	edsNodesList := &datadoghqv1alpha1.ExtendedDaemonsetSettingList{}
 	if err = r.client.List(ctx, edsNodesList, &client.ListOptions{Namespace: instance.Namespace}); err != nil {
 		return r.updateExtendedDaemonsetSetting(ctx, instance, newStatus)
@@ -126,7 +133,11 @@ func searchPossibleConflict(instance *datadoghqv1alpha1.ExtendedDaemonsetSetting
 		for _, edsNode := range edsNodes {
 			selector, err2 := metav1.LabelSelectorAsSelector(&edsNode.Spec.NodeSelector)
 			if err2 != nil {
-				return "", err2
+				if edsNode.Name == instance.Name {
+					return "", err2
+				}
+				// the unusable selector of another setting selects no node; it is reported on the setting that carries it
+				continue
 			}
 			if selector.Matches(labels.Set(node.Labels)) {
 				if edsNode.Name == instance.Name {
